@@ -39,7 +39,14 @@ impl WithCause for ParseErr {
 
 impl WithSource for ParseErr {
     fn with_source(self, source: &Option<String>, path: &Option<PathBuf>) -> ParseErr {
+        let clamp = |pos: Position| source.as_ref().map_or(pos, |src| pos.clamp_to(src));
         ParseErr {
+            pos: clamp(self.pos),
+            causes: self
+                .causes
+                .iter()
+                .map(|cause| Cause::new(&cause.msg, clamp(cause.pos)))
+                .collect(),
             source: source.clone(),
             path: path.clone(),
             ..self
